@@ -7,8 +7,19 @@ def tick(name="paths"):
     COUNTERS[name] = COUNTERS.get(name, 0) + 1
 
 
+WHY = []
+
+
+def why(code):
+    """diagnostics: remember why a harness is about to return False (the last entries are shown with a counterexample)"""
+    WHY.append(str(code)[:300])
+    return False
+
+
 def snapshot():
-    return dict(COUNTERS)
+    d = dict(COUNTERS)
+    d["why"] = WHY[-4:]
+    return d
 
 
 def replay_by_rerun(glob, func, call, key=None, what=""):
